@@ -77,8 +77,11 @@ func (a *Application) providerProxyHandler(w http.ResponseWriter, r *http.Reques
 	ctx = context.WithValue(ctx, constants.ContextProviderTypeKey, providerType)
 
 	// The proxy needs to know which prefix to strip before forwarding.
-	// This mimics the behaviour of the main router for consistency.
-	providerPrefix := getProviderPrefix(providerType)
+	// This mimics the behaviour of the main router for consistency. The prefix is
+	// built from the provider segment exactly as it is spelled in the URL
+	// (lmstudio, lm_studio, ...): the normalised provider type (lm-studio) would not
+	// match the path and nothing would be stripped.
+	providerPrefix := getProviderPrefix(rawProviderSegment(r.URL.Path))
 	ctx = context.WithValue(ctx, constants.ContextRoutePrefixKey, providerPrefix)
 	r = r.WithContext(ctx)
 
